@@ -35,7 +35,7 @@ class ExportRun(object):
                 continue
             exp, exp_out, m = model.expected_outputs(c)
             outs = pipeline.collect_outputs(c, r)
-            self.violations += pipeline.log_exceptions(prop, c, r)
+            self.violations += pipeline.log_exceptions(prop, c, r, exp)
             vs, docs = pipeline.judge_wellformed(prop, c, outs, exp_out) if prop == 'C02' else (None, None)
             if docs is None:
                 # other properties still need the parsed documents, but malformed output is C02's business
